@@ -112,3 +112,24 @@ Definition C08_statement_covered (np_only : bool) : Prop :=
     accepts_ok wf_job (pre ++ [x]) -> accepts_ok covered [x] ->
     run fuel s0 pre = Done s -> do_step fuel s x = Done s' ->
     raise_within np_only s s'.
+
+(** ** The snapshot
+
+    What the session-open pass has to produce, said without its control flow:
+    the tasks charged are exactly the snapshot's pods whose status is in the
+    allocated class (Allocated, Binding, Bound, Running -- [allocated_status]
+    of Model/Status.v, tied to pod_status.AllocatedStatus by
+    Proofs/StatusTables.v), each with its AcceptedResource; [counters_exact]
+    for that ledger then says that Allocated / AllocatedNotPreemptible of every
+    queue are the sums over exactly those pods in its subtree.  (The pass
+    prepends, hence the [rev].) *)
+Definition allocated_pods (ps : list spod) : list spod :=
+  filter (fun p => KaiV.Model.Status.allocated_status (sp_status p)) ps.
+Definition allocated_entries (ps : list spod) : list entry := rev (map entry_of (allocated_pods ps)).
+
+(** a snapshot before the pass: createQueueResourceAttrs leaves every counter at 0 *)
+Definition fresh (qs : list queue) : Prop :=
+  forall q, In q qs -> forall r, rget (q_alloc q) r == 0 /\ rget (q_np q) r == 0.
+
+(** id, parent, limit and deserved quota of every queue: what the pass must not touch *)
+Definition shape (q : queue) := (q_id q, q_parent q, q_limit q, q_deserved q).
